@@ -17,7 +17,7 @@ decode = default_decode(SIG)
 TASK_REQS = 2500
 RULE = ('requests (value, radix): radices 2..=256 and out-of-range ones; structured values plus, for each radix, values with an interior '
         'all-zero chunk (x = hi*(r^p)^2 + lo, p = digits per division chunk of that digit size), interior zero digits, one-digit '
-        'values, r^k and r^k-1, exact multiples of the division chunk bases with a low digit next to 2^D, and 2^k-1 / 2^k for every bit length k (a seed-dependent stride when the budget of the configuration is smaller than its bit width). The numeral is computed independently by the monitor; the std formatter is a second oracle for widths '
+        'values, r^k and r^k-1, values with a few non-zero digits in the radix, chunk-base digits in the value or in its running quotient, exact multiples of the division chunk bases with a low digit next to 2^D, and 2^k-1 / 2^k for every bit length k (a seed-dependent stride when the budget of the configuration is smaller than its bit width). The numeral is computed independently by the monitor; the std formatter is a second oracle for widths '
         '<= 128 bits (radix 2/8/10/16). Non-trivial: interior run of >= 2 zero digits, multi-chunk numerals, power-of-two radices '
         'that do not divide the digit width, negative values; distinct = distinct request lines')
 
@@ -41,6 +41,46 @@ def chunk_power(cfg, r):
     while r ** (p + 1) <= half:
         p += 1
     return p
+
+
+def chunk_digit_value(cfg, rng, r):
+    """some bnum digits equal to a division chunk base of radix r - the largest power of r in half a digit or in a whole digit - or a neighbour, others zero,
+    all ones or random; half of the time that pattern is the *quotient*: the value is pattern * base^j + remainder, so that the digits appear in the running
+    quotient after j short divisions rather than in the value itself. Unsigned pattern."""
+    D, B, N = cfg.dbits, cfg.B, cfg.n
+    p = chunk_power(cfg, r) if r & (r - 1) else 1
+    pf = max(1, len(to_digits(B - 1, r)) - 1) if r & (r - 1) else 1
+    j = rng.choice((0, 0, 1, 1, 2)) if N >= 3 else 0
+    nd = max(1, N - j)
+    v = 0
+    for i in range(nd):
+        c = rng.random()
+        if c < 0.35:
+            d = (r ** rng.choice((p, p, pf, pf, max(1, p - 1), 1))) + rng.choice((-1, 0, 0, 0, 1))
+        elif c < 0.5:
+            d = 0
+        elif c < 0.65:
+            d = B - 1 - rng.choice((0, 0, 0, 1))
+        else:
+            d = rng.getrandbits(D)
+        v |= (d % B) << (D * i)
+    if j:
+        base = r ** rng.choice((p, pf))
+        for _ in range(j):
+            v = v * base + rng.choice((0, 1, base - 1, rng.randrange(base)))
+    return v % cfg.mod
+
+
+def sparse_in_radix(cfg, rng, r):
+    """a value with only a few non-zero digits in radix r: sum of c_i * r^e_i for 2..4 random exponents - interior runs of zero digits of every length and
+    alignment in that radix (the analogue of one or two set bits), e.g. 10^38 + 1"""
+    cap = len(to_digits(cfg.mask, r))
+    v = 0
+    for _ in range(rng.choice((2, 2, 3, 4))):
+        e = rng.choice((0, rng.randrange(cap), rng.randrange(cap), cap - 1, max(0, cap - 2)))
+        c = rng.choice((1, 1, r - 1, rng.randrange(1, r), rng.randrange(1, r ** min(4, cap))))
+        v += c * r ** e
+    return v % cfg.mod
 
 
 def chunk_multiple(cfg, rng, r):
@@ -91,23 +131,10 @@ def requests(cfg, rng, n, tier, part, nparts, st):
             if rng.random() < 0.3:
                 v = v * base ** rng.randrange(0, 3) + rng.randrange(base)
             v %= cfg.mod
+        elif rr < 0.40:
+            v = chunk_digit_value(cfg, rng, r)
         elif rr < 0.44:
-            # some bnum digits equal to the division chunk base r^p of this digit size (or a neighbour / another power of r): the running
-            # quotient then has a digit equal to the divisor of the short division
-            p = chunk_power(cfg, r) if r & (r - 1) else 1
-            pf = max(1, len(to_digits(cfg.B - 1, r)) - 1) if r & (r - 1) else 1     # the largest power of the radix in a whole digit
-            v = 0
-            for i in range(cfg.n):
-                c = rng.random()
-                if c < 0.35:
-                    d = (r ** rng.choice((p, p, pf, pf, max(1, p - 1), 1))) + rng.choice((-1, 0, 0, 0, 1))
-                elif c < 0.5:
-                    d = 0
-                elif c < 0.65:
-                    d = cfg.B - 1 - rng.choice((0, 0, 0, 1))   # next to a chunk-base digit: the short division's quotient digit becomes B-1
-                else:
-                    d = rng.getrandbits(cfg.dbits)
-                v |= (d % cfg.B) << (cfg.dbits * i)
+            v = sparse_in_radix(cfg, rng, r)
         elif rr < 0.5 and rng.random() < 0.5 and cfg.n >= 2:
             # exact multiples of a division chunk base (the largest power of the radix in half a digit, or in a whole digit) whose low digit is
             # within a few units of 2^D: the short division by that base then meets a two-digit window that is an exact multiple of the divisor
